@@ -1,3 +1,307 @@
-import PyshaclModel
+/-
+  C01 — Core constraint components flag exactly the value nodes the SHACL text names.
+
+  Statements are about the executable model (`Core.lean`, `Eval.lean`: mirrors of
+  pyshacl/constraints/core/*.py, rdfutil/compare.py, Shape.validate), which the `validate` op of the
+  correspondence check compares with /repo on every run.  `Spec.*` is the declarative reading of the
+  W3C Recommendation (CoreSpec.lean, CoreSpec2.lean); comparisons are the SPARQL 1.1 operator mapping.
+  Every theorem quantifies over all shapes, all data graphs, any number of focus and value nodes.
+
+  Hypotheses, and why they are there:
+  * `TermInScope` (value-range, lessThan): literals of the datatypes the property quantifies over —
+    pySHACL models only equality for python values of other classes (xsd:time, durations, …).
+  * `RdflibLit` (sh:datatype): what rdflib guarantees about `Literal.value` / `ill_typed` (trusted base).
+  * `n ≠ 0` (sh:minLength): blank nodes under `sh:minLength 0` are left unspecified by the property.
+  * sh:closed is `…_partial`: known finding C01:closed-exempts-rdf:type-rdfs:Resource.
+-/
+import PyshaclProofs.CoreSpec2
+import PyshaclProofs.CoreCompose
 namespace Pyshacl.C01
+open Pyshacl Pyshacl.Spec
+
+/-! ### dispatch: parameter → component → sh:sourceConstraintComponent (regenerated table) -/
+
+/-- every Core parameter of the property is dispatched to the component the Recommendation names
+    (checked against `Generated/Dispatch.lean`, re-extracted from `CONSTRAINT_PARAMETERS_MAP` on every run) -/
+theorem dispatch_table_ok :
+    paramKind (sh "class") = some .cls ∧ paramKind (sh "datatype") = some .datatype ∧
+    paramKind (sh "nodeKind") = some .nodeKind ∧ paramKind (sh "minCount") = some .minCount ∧
+    paramKind (sh "maxCount") = some .maxCount ∧ paramKind (sh "minExclusive") = some .minExclusive ∧
+    paramKind (sh "minInclusive") = some .minInclusive ∧ paramKind (sh "maxExclusive") = some .maxExclusive ∧
+    paramKind (sh "maxInclusive") = some .maxInclusive ∧ paramKind (sh "minLength") = some .minLength ∧
+    paramKind (sh "maxLength") = some .maxLength ∧ paramKind (sh "pattern") = some .pattern ∧
+    paramKind (sh "languageIn") = some .languageIn ∧ paramKind (sh "uniqueLang") = some .uniqueLang ∧
+    paramKind (sh "equals") = some .equals ∧ paramKind (sh "disjoint") = some .disjoint ∧
+    paramKind (sh "lessThan") = some .lessThan ∧ paramKind (sh "lessThanOrEquals") = some .lessThanOrEquals ∧
+    paramKind (sh "hasValue") = some .hasValue ∧ paramKind (sh "in") = some .inC ∧
+    paramKind (sh "closed") = some .closed ∧ paramKind (sh "ignoredProperties") = some .closed := by
+  decide
+
+/-- each component reports under the IRI the Recommendation gives it -/
+theorem component_iris_ok :
+    componentIri .cls = sh "ClassConstraintComponent" ∧ componentIri .datatype = sh "DatatypeConstraintComponent" ∧
+    componentIri .nodeKind = sh "NodeKindConstraintComponent" ∧ componentIri .minCount = sh "MinCountConstraintComponent" ∧
+    componentIri .maxCount = sh "MaxCountConstraintComponent" ∧
+    componentIri .minExclusive = sh "MinExclusiveConstraintComponent" ∧
+    componentIri .minInclusive = sh "MinInclusiveConstraintComponent" ∧
+    componentIri .maxExclusive = sh "MaxExclusiveConstraintComponent" ∧
+    componentIri .maxInclusive = sh "MaxInclusiveConstraintComponent" ∧
+    componentIri .minLength = sh "MinLengthConstraintComponent" ∧ componentIri .maxLength = sh "MaxLengthConstraintComponent" ∧
+    componentIri .pattern = sh "PatternConstraintComponent" ∧ componentIri .languageIn = sh "LanguageInConstraintComponent" ∧
+    componentIri .uniqueLang = sh "UniqueLangConstraintComponent" ∧ componentIri .equals = sh "EqualsConstraintComponent" ∧
+    componentIri .disjoint = sh "DisjointConstraintComponent" ∧ componentIri .lessThan = sh "LessThanConstraintComponent" ∧
+    componentIri .lessThanOrEquals = sh "LessThanOrEqualsConstraintComponent" ∧
+    componentIri .hasValue = sh "HasValueConstraintComponent" ∧ componentIri .inC = sh "InConstraintComponent" ∧
+    componentIri .closed = sh "ClosedConstraintComponent" := by
+  decide
+
+/-- one instance per component per shape, however many parameter triples the shape carries -/
+theorem one_instance_per_component (sg : Graph) (node : Term) (adv : Bool) :
+    (shapeComponents sg node adv).Nodup := shapeComponents_nodup sg node adv
+
+/-! ### results of a shape = union of the results of its components; verdict -/
+
+/-- in a complete run the results a shape reports for its value nodes are exactly the results of each
+    of its components (no component is skipped, none runs twice, nothing else is added) -/
+theorem shape_results_union (c : Ctx) (rec' : Rec) (s : Shape) (fl : List Term) (path : Option (List PathEntry))
+    (hab : c.o.abortOnFirst = false) (conf : Bool) (rs : List Result)
+    (h : validateCore c rec' s fl path = .ok (conf, rs)) :
+    ∃ fv, valueNodes c.toEnv s fl = .ok fv ∧
+      ∃ (g1 : CKind → Bool × List Result) (g2 : Component → Bool × List Result) (comps : List Component),
+        c.components = .ok comps ∧
+        (∀ k ∈ shapeComponents c.sg s.node c.o.advanced,
+          evalConstraint c.toEnv rec' s k fv (path.getD [] ++ [.shape s.node] ++ [.constr k s.node]) = .ok (g1 k)) ∧
+        (∀ comp ∈ applicableComponents c.sg comps s.node, evalComponent c.toEnv s comp fv = .ok (g2 comp)) ∧
+        rs = (shapeComponents c.sg s.node c.o.advanced).flatMap (fun k => (g1 k).2) ++
+             (applicableComponents c.sg comps s.node).flatMap (fun comp => (g2 comp).2) :=
+  validateCore_results c rec' s fl path hab conf rs h
+
+/-- the value nodes of a node shape are the focus nodes themselves -/
+theorem node_shape_value_nodes (c : Env) (s : Shape) (hs : s.isProp = false) (foci : List Term) :
+    valueNodes c s foci = .ok (foci.map fun f => (f, [f])) := by
+  simp [valueNodes, hs]
+
+/-- the verdict is `conforms` exactly when the set of results is empty (no severity option given) -/
+theorem verdict_iff_no_results (o : Opts) (hi : o.allowInfos = false) (hw : o.allowWarnings = false)
+    (sg dg : Graph) (rx : Regex) (focus : List Term) (conf : Bool) (rs : List Result)
+    (h : runValidate o sg dg rx focus [] = .ok (conf, rs)) : conf = true ↔ rs = [] := by
+  rw [runValidate_verdict o sg dg rx focus conf rs h, allWaived_no_option o hi hw]
+  cases rs <;> simp
+
+/-! ### wiring: which evaluator `Shape.validate` runs for a component, with which parameters -/
+
+theorem wiring (c : Env) (rec : Rec) (s : Shape) (fv : FV) (path : List PathEntry) :
+    evalConstraint c rec s .cls fv path = ofResults (evalClass s c.dg fv (c.sg.objects s.node (sh "class"))) ∧
+    evalConstraint c rec s .equals fv path = ofResults (evalEquals s c.dg fv (dedup (c.sg.objects s.node (sh "equals")))) ∧
+    evalConstraint c rec s .disjoint fv path = ofResults (evalDisjoint s c.dg fv (dedup (c.sg.objects s.node (sh "disjoint")))) ∧
+    evalConstraint c rec s .hasValue fv path = ofResults (evalHasValue s fv (dedup (c.sg.objects s.node (sh "hasValue")))) :=
+  ⟨rfl, rfl, rfl, rfl⟩
+
+theorem wiring_single (c : Env) (rec : Rec) (s : Shape) (fv : FV) (path : List PathEntry) (r : Term) :
+    (dedup (c.sg.objects s.node (sh "datatype")) = [r] →
+      evalConstraint c rec s .datatype fv path = ofResults (evalDatatype s fv r)) ∧
+    (dedup (c.sg.objects s.node (sh "nodeKind")) = [r] →
+      evalConstraint c rec s .nodeKind fv path = ofResults (evalNodeKind s fv r)) := by
+  constructor <;> intro h <;> simp [evalConstraint, h]
+
+theorem wiring_range (c : Env) (rec : Rec) (s : Shape) (fv : FV) (path : List PathEntry) :
+    ((c.sg.objects s.node (sh "minExclusive")).all (·.isLit) = true →
+      evalConstraint c rec s .minExclusive fv path =
+        ofResults (evalRange s .minExclusive fv (c.sg.objects s.node (sh "minExclusive")) (fun r => r > 0))) ∧
+    ((c.sg.objects s.node (sh "minInclusive")).all (·.isLit) = true →
+      evalConstraint c rec s .minInclusive fv path =
+        ofResults (evalRange s .minInclusive fv (c.sg.objects s.node (sh "minInclusive")) (fun r => r ≥ 0))) ∧
+    ((c.sg.objects s.node (sh "maxExclusive")).all (·.isLit) = true →
+      evalConstraint c rec s .maxExclusive fv path =
+        ofResults (evalRange s .maxExclusive fv (c.sg.objects s.node (sh "maxExclusive")) (fun r => r < 0))) ∧
+    ((c.sg.objects s.node (sh "maxInclusive")).all (·.isLit) = true →
+      evalConstraint c rec s .maxInclusive fv path =
+        ofResults (evalRange s .maxInclusive fv (c.sg.objects s.node (sh "maxInclusive")) (fun r => r ≤ 0))) := by
+  refine ⟨?_, ?_, ?_, ?_⟩ <;> intro h <;>
+  · have h' : ∀ b ∈ _, Term.isLit b = true := List.all_eq_true.1 h
+    simp only [evalConstraint]
+    rw [if_neg]
+    simp only [List.any_eq_true, Bool.not_eq_true', not_exists, not_and]
+    intro b hb; simp [h' b hb]
+
+/-! ### the components against the W3C text -/
+
+theorem class_exact (s : Shape) (dg : Graph) (fv : FV) (classes : List Term) (r : Result) :
+    r ∈ evalClass s dg fv classes ↔
+      ∃ c ∈ classes, ∃ f vs, (f, vs) ∈ fv ∧ ∃ v ∈ vs, ¬ ClassOk dg v c ∧ r = mkResult s .cls f (some v) :=
+  Spec.class_exact s dg fv classes r
+
+theorem datatype_exact (s : Shape) (fv : FV) (rule : Term)
+    (hrule : rule ≠ rdfsLiteral ∧ rule ≠ rdfsDatatype ∧ rule ≠ .iri "")
+    (hcons : ∀ f vs, (f, vs) ∈ fv → ∀ v ∈ vs, ∀ l, v = .lit l → RdflibLit l) (r : Result) :
+    r ∈ evalDatatype s fv rule ↔
+      ∃ f vs, (f, vs) ∈ fv ∧ ∃ v ∈ vs, ¬ DatatypeOk v rule ∧ r = mkResult s .datatype f (some v) :=
+  Spec.datatype_exact s fv rule hrule hcons r
+
+theorem nodeKind_exact (s : Shape) (fv : FV) (rule : Term) (r : Result) :
+    r ∈ evalNodeKind s fv rule ↔
+      ∃ f vs, (f, vs) ∈ fv ∧ ∃ v ∈ vs, ¬ NodeKindOk v rule ∧ r = mkResult s .nodeKind f (some v) :=
+  Spec.nodeKind_exact s fv rule r
+
+theorem minCount_exact (s : Shape) (fv : FV) (n : Int) (r : Result) :
+    r ∈ evalMinCount s fv n ↔
+      ∃ f vs, (f, vs) ∈ fv ∧ (vs.length : Int) < n ∧ r = mkResult s .minCount f none :=
+  Spec.minCount_exact s fv n r
+
+theorem maxCount_exact (s : Shape) (fv : FV) (n : Int) (r : Result) :
+    r ∈ evalMaxCount s fv n ↔
+      ∃ f vs, (f, vs) ∈ fv ∧ (vs.length : Int) > n ∧ r = mkResult s .maxCount f none :=
+  Spec.maxCount_exact s fv n r
+
+/-- the comparison lemma: sign tests on `compare_literal` = SPARQL `<`, `<=` returning true -/
+theorem comparison_is_sparql (a b : Lit) (ha : InScope a) (hb : InScope b) :
+    (cmpFlag a b (fun c => c < 0) = true ↔ sparqlLt a b = some true) ∧
+    (cmpFlag a b (fun c => c > 0) = true ↔ sparqlLt b a = some true) ∧
+    (cmpFlag a b (fun c => c ≤ 0) = true ↔ sparqlLe a b = some true) ∧
+    (cmpFlag a b (fun c => c ≥ 0) = true ↔ sparqlLe b a = some true) :=
+  Spec.cmpFlag_spec a b ha hb
+
+theorem minExclusive_exact (s : Shape) (fv : FV) (bounds : List Term)
+    (hscope : (∀ b ∈ bounds, TermInScope b) ∧ ∀ f vs, (f, vs) ∈ fv → ∀ v ∈ vs, TermInScope v) (r : Result) :
+    r ∈ evalRange s .minExclusive fv bounds (fun c => c > 0) ↔
+      ∃ b ∈ bounds, ∃ f vs, (f, vs) ∈ fv ∧ ∃ v ∈ vs, ¬ CmpTrue sparqlLt b v ∧ r = mkResult s .minExclusive f (some v) :=
+  Spec.minExclusive_exact s fv bounds hscope r
+
+theorem minInclusive_exact (s : Shape) (fv : FV) (bounds : List Term)
+    (hscope : (∀ b ∈ bounds, TermInScope b) ∧ ∀ f vs, (f, vs) ∈ fv → ∀ v ∈ vs, TermInScope v) (r : Result) :
+    r ∈ evalRange s .minInclusive fv bounds (fun c => c ≥ 0) ↔
+      ∃ b ∈ bounds, ∃ f vs, (f, vs) ∈ fv ∧ ∃ v ∈ vs, ¬ CmpTrue sparqlLe b v ∧ r = mkResult s .minInclusive f (some v) :=
+  Spec.minInclusive_exact s fv bounds hscope r
+
+theorem maxExclusive_exact (s : Shape) (fv : FV) (bounds : List Term)
+    (hscope : (∀ b ∈ bounds, TermInScope b) ∧ ∀ f vs, (f, vs) ∈ fv → ∀ v ∈ vs, TermInScope v) (r : Result) :
+    r ∈ evalRange s .maxExclusive fv bounds (fun c => c < 0) ↔
+      ∃ b ∈ bounds, ∃ f vs, (f, vs) ∈ fv ∧ ∃ v ∈ vs, ¬ CmpTrue sparqlLt v b ∧ r = mkResult s .maxExclusive f (some v) :=
+  Spec.maxExclusive_exact s fv bounds hscope r
+
+theorem maxInclusive_exact (s : Shape) (fv : FV) (bounds : List Term)
+    (hscope : (∀ b ∈ bounds, TermInScope b) ∧ ∀ f vs, (f, vs) ∈ fv → ∀ v ∈ vs, TermInScope v) (r : Result) :
+    r ∈ evalRange s .maxInclusive fv bounds (fun c => c ≤ 0) ↔
+      ∃ b ∈ bounds, ∃ f vs, (f, vs) ∈ fv ∧ ∃ v ∈ vs, ¬ CmpTrue sparqlLe v b ∧ r = mkResult s .maxInclusive f (some v) :=
+  Spec.maxInclusive_exact s fv bounds hscope r
+
+theorem minLength_exact (s : Shape) (fv : FV) (n : Int) (hn : n ≠ 0) (r : Result) :
+    r ∈ evalMinLength s fv [n] ↔
+      ∃ f vs, (f, vs) ∈ fv ∧ ∃ v ∈ vs, ¬ (∃ str, strOf v = some str ∧ (str.length : Int) ≥ n) ∧
+        r = mkResult s .minLength f (some v) :=
+  Spec.minLength_exact s fv n hn r
+
+theorem maxLength_exact (s : Shape) (fv : FV) (n : Int) (r : Result) :
+    r ∈ evalMaxLength s fv [n] ↔
+      ∃ f vs, (f, vs) ∈ fv ∧ ∃ v ∈ vs, ¬ (∃ str, strOf v = some str ∧ (str.length : Int) ≤ n) ∧
+        r = mkResult s .maxLength f (some v) :=
+  Spec.maxLength_exact s fv n r
+
+theorem pattern_exact (s : Shape) (fv : FV) (rx : Regex) (patterns : List Term) (flags : String)
+    (rs : List Result) (h : evalPattern s fv rx patterns flags = .ok rs) (r : Result) :
+    r ∈ rs ↔ ∃ p ∈ patterns, ∃ f vs, (f, vs) ∈ fv ∧ ∃ v ∈ vs,
+      ¬ (∃ lp str, p = .lit lp ∧ strOf v = some str ∧ rx lp.lex flags str = some true) ∧
+      r = mkResult s .pattern f (some v) :=
+  Spec.pattern_exact s fv rx patterns flags rs h r
+
+theorem languageIn_exact (s : Shape) (fv : FV) (ranges : List String) (r : Result) :
+    r ∈ evalLanguageIn s fv ranges ↔
+      ∃ f vs, (f, vs) ∈ fv ∧ ∃ v ∈ vs,
+        ¬ (∃ l, v = .lit l ∧ ∃ rg ∈ ranges, LangMatches l.lang rg) ∧
+        r = mkResult s .languageIn f (some v) :=
+  Spec.languageIn_exact s fv ranges r
+
+/-- sh:uniqueLang: per focus node one result per language tag used by ≥ 2 value nodes, each tag once -/
+theorem uniqueLang_exact (s : Shape) (fv : FV) :
+    evalUniqueLang s fv true =
+        fv.flatMap (fun x => (dupLangs x.2).map fun _ => mkResult s .uniqueLang x.1 none) ∧
+    (∀ vs t, t ∈ dupLangs vs ↔ 2 ≤ (vs.filter fun v => langOf v = some t).length) ∧
+    (∀ vs, (dupLangs vs).Nodup) ∧ evalUniqueLang s fv false = [] :=
+  ⟨Spec.uniqueLang_eq s fv, Spec.mem_dupLangs, Spec.dupLangs_nodup, Spec.uniqueLang_off s fv⟩
+
+theorem equals_exact (s : Shape) (dg : Graph) (fv : FV) (props : List Term) (r : Result) :
+    r ∈ evalEquals s dg fv props ↔
+      ∃ p ∈ props, ∃ f vs, (f, vs) ∈ fv ∧ ∃ v,
+        ((v ∈ vs ∧ (⟨f, p, v⟩ : Triple) ∉ dg) ∨ ((⟨f, p, v⟩ : Triple) ∈ dg ∧ v ∉ vs)) ∧
+        r = mkResult s .equals f (some v) :=
+  Spec.equals_exact s dg fv props r
+
+theorem disjoint_exact (s : Shape) (dg : Graph) (fv : FV) (props : List Term) (r : Result) :
+    r ∈ evalDisjoint s dg fv props ↔
+      ∃ p ∈ props, ∃ f vs, (f, vs) ∈ fv ∧ ∃ v ∈ vs, (⟨f, p, v⟩ : Triple) ∈ dg ∧
+        r = mkResult s .disjoint f (some v) :=
+  Spec.disjoint_exact s dg fv props r
+
+theorem lessThan_exact (s : Shape) (dg : Graph) (fv : FV) (props : List Term)
+    (hscope : (∀ t ∈ dg, TermInScope t.o) ∧ ∀ f vs, (f, vs) ∈ fv → ∀ v ∈ vs, TermInScope v)
+    (rs : List Result) (h : evalLessThan s .lessThan dg fv props (fun r => r < 0) = .ok rs) (r : Result) :
+    r ∈ rs ↔ ∃ p ∈ props, ∃ f vs, (f, vs) ∈ fv ∧ ∃ v ∈ vs, ∃ c, (⟨f, p, c⟩ : Triple) ∈ dg ∧
+      ¬ CmpTrue sparqlLt v c ∧ r = mkResult s .lessThan f (some v) :=
+  Spec.lessThan_exact s _ dg fv props _ (fun v c => CmpTrue sparqlLt v c)
+    (fun v c hv hc => (pairOk_spec v c hv hc).1) hscope rs h r
+
+theorem lessThanOrEquals_exact (s : Shape) (dg : Graph) (fv : FV) (props : List Term)
+    (hscope : (∀ t ∈ dg, TermInScope t.o) ∧ ∀ f vs, (f, vs) ∈ fv → ∀ v ∈ vs, TermInScope v)
+    (rs : List Result) (h : evalLessThan s .lessThanOrEquals dg fv props (fun r => r ≤ 0) = .ok rs) (r : Result) :
+    r ∈ rs ↔ ∃ p ∈ props, ∃ f vs, (f, vs) ∈ fv ∧ ∃ v ∈ vs, ∃ c, (⟨f, p, c⟩ : Triple) ∈ dg ∧
+      ¬ CmpTrue sparqlLe v c ∧ r = mkResult s .lessThanOrEquals f (some v) :=
+  Spec.lessThan_exact s _ dg fv props _ (fun v c => CmpTrue sparqlLe v c)
+    (fun v c hv hc => (pairOk_spec v c hv hc).2) hscope rs h r
+
+theorem hasValue_exact (s : Shape) (fv : FV) (vals : List Term) (r : Result) :
+    r ∈ evalHasValue s fv vals ↔
+      ∃ hv ∈ vals, ∃ f vs, (f, vs) ∈ fv ∧ hv ∉ vs ∧ r = mkResult s .hasValue f none :=
+  Spec.hasValue_exact s fv vals r
+
+theorem in_exact (s : Shape) (fv : FV) (members : List Term) (r : Result) :
+    r ∈ evalIn s fv members ↔
+      ∃ f vs, (f, vs) ∈ fv ∧ ∃ v ∈ vs, v ∉ members ∧ r = mkResult s .inC f (some v) :=
+  Spec.in_exact s fv members r
+
+theorem closed_exact_partial (s : Shape) (dg : Graph) (fv : FV) (ignored allowed : List Term) (r : Result) :
+    r ∈ evalClosed s dg fv true ignored allowed ↔
+      ∃ f vs, (f, vs) ∈ fv ∧ ∃ v ∈ vs, ∃ p o, (⟨v, p, o⟩ : Triple) ∈ dg ∧ p ∉ ignored ∧ p ∉ allowed ∧
+        ¬ (p = rdfType ∧ o = rdfsResource) ∧
+        r = mkResult s .closed f (some o) (resultPath := some p) :=
+  Spec.closed_exact_partial s dg fv ignored allowed r
+
+/-- per-value results are exact also in multiplicity: one result per (focus, value) pair, in order -/
+theorem per_value_no_duplicates (s : Shape) (k : CKind) (fv : FV) (ok : Term → Term → Bool) :
+    perValue s k fv ok =
+      fv.flatMap fun x => (x.2.filter fun v => !ok x.1 v).map fun v => mkResult s k x.1 (some v) :=
+  Spec.perValue_eq s k fv ok
+
+/-- every result carries the component IRI, the source shape, its severity and its messages -/
+theorem result_fields (s : Shape) (k : CKind) (fv : FV) (ok : Term → Term → Bool) (r : Result)
+    (h : r ∈ perValue s k fv ok) :
+    r.component = componentIri k ∧ r.shape = s.node ∧ r.severity = s.severity ∧ r.messages = s.messages ∧
+    (∃ f vs, (f, vs) ∈ fv ∧ r.focus = f ∧ ∃ v ∈ vs, r.value = some v) :=
+  Spec.perValue_fields h
+
+/-! ### the recorded deviation, as a closed counterexample (known finding, status open) -/
+
+def exN (s : String) : Term := .iri ("http://ex.test/" ++ s)
+def shapeS : Shape := ⟨exN "S", false, none, false, shViolation, []⟩
+
+/-- W3C: the triple (a rdf:type rdfs:Resource) has a predicate that is neither a property-shape path
+    nor ignored, so it is a violation of `sh:closed true`; pySHACL reports nothing -/
+theorem closed_counterexample :
+    evalClosed shapeS [⟨exN "a", rdfType, rdfsResource⟩] [(exN "a", [exN "a"])] true [] [] = [] := by
+  decide
+
+/-! ### non-vacuity: hypotheses are satisfiable and the components do report -/
+
+def intLit (z : Int) : Lit := ⟨toString z, xsd "integer", "", .int z, false⟩
+def dtLit : Lit := ⟨"2020-01-01T00:00:00", xsd "dateTime", "", .dateTime false 1577836800000000, false⟩
+
+example : InScope (intLit 5) ∧ InScope dtLit ∧ RdflibLit (intLit 5) := by
+  refine ⟨by simp [InScope, intLit], by simp [InScope, dtLit], ⟨?_, ?_, ?_⟩⟩ <;> decide
+
+/-- a dateTime bound does not accept an integer (the defect repaired by 7a3f3fa): one result -/
+example : (evalRange shapeS .minInclusive [(exN "a", [.lit (intLit 5)])] [.lit dtLit] (fun c => c ≥ 0)).length = 1 := by
+  decide
+/-- and an integer bound accepts a greater integer: no result -/
+example : evalRange shapeS .minInclusive [(exN "a", [.lit (intLit 5)])] [.lit (intLit 3)] (fun c => c ≥ 0) = [] := by
+  decide
+
 end Pyshacl.C01
